@@ -224,8 +224,9 @@ def run(eng, R):
                     if isinstance(n, ast.If):
                         fl = self_attr(n.test)
                         if fl in ("_add_constraint_cost", "_add_determinant_cost"):
+                            # `x = x[:-k]` on the argument list (whatever the local holding it is called)
                             sl = [s for s in ast.walk(n) if isinstance(s, ast.Assign) and isinstance(s.value, ast.Subscript) and isinstance(s.value.slice, ast.Slice)
-                                  and isinstance(s.value.value, ast.Name) and s.value.value.id == "args"]
+                                  and isinstance(s.value.value, ast.Name) and isinstance(s.targets[0], ast.Name) and s.targets[0].id == s.value.value.id]
                             cut = None
                             for s in sl:
                                 up = s.value.slice.upper
@@ -251,8 +252,7 @@ def run(eng, R):
         flags_g = [f for f, c in sg if c is not None]
         # goodness_of_fit zeroes the determinant (args[:-1] + (0.0,)) and then strips determinant, constraints for the saturated call
         ok = "_add_determinant_cost" in [f for f, _ in sg] and "_add_constraint_cost" in [f for f, _ in sg]
-        zero = any(isinstance(n, ast.Assign) and isinstance(n.value, ast.BinOp) and isinstance(n.value.op, ast.Add) and "args[:-1]" in ast.unparse(n.value.left) and "0.0" in ast.unparse(n.value.right)
-                   for n in ast.walk(gof.node))
+        zero = common.zeroed_determinant(gof.node)
         R.ob("D4", "CostFunction.goodness_of_fit", ok and zero, eng.where(gof), "goodness_of_fit must zero the determinant argument and strip determinant and constraint arguments for the saturated call (found %s, zeroing=%s)" % (sg, zero))
 
     # ---- D2b chi2_probability subtracts the determinant node the cost adds
